@@ -679,6 +679,9 @@ func (f *File) CopySampleData(w io.Writer, rs io.ReadSeeker, trak *TrakBox,
 		for sNr := startNr; sNr <= endNr; sNr++ {
 			size += int64(stbl.Stsz.GetSampleSize(int(sNr)))
 		}
+		if size == 0 {
+			continue // Nothing to copy. The offset of a chunk without bytes need not lie inside this mdat.
+		}
 		if mdat.IsLazy() {
 			_, err := rs.Seek(int64(offset), io.SeekStart)
 			if err != nil {
